@@ -266,6 +266,8 @@ class ExprMixin:
             v = st.locals[nm]
             if v is None:
                 raise Unsupported('local %s may be unbound here (line %s)' % (nm, getattr(n, 'lineno', '?')))
+            if isinstance(v.t, T.List) and isinstance(v.t.elem, (T.Ref, T.List, T.Dict)) and st is not None:
+                self.assume_class(v, st)      # element typing of the list in the current heap (cached per heap version)
             return v
         if nm in ('True', 'False'):
             return SV(T.Bool, z3.BoolVal(nm == 'True'))
@@ -731,6 +733,9 @@ class ExprMixin:
         src = ast.unparse(n)
         if src in self.eng.prop.consts:
             return self.const_sv(self.eng.prop.consts[src])
+        if src in self.c.calls and isinstance(n.ctx, ast.Load):
+            # attribute read resolved by a contract (a property of an object whose class is not modelled)
+            return self.call_contract(self.eng.prop.contracts[self.c.calls[src]], [self.ev(n.value, st)], {}, st, n)
         obj = self.ev(n.value, st)
         return self.getattr(obj, n.attr, st, n)
 
@@ -811,7 +816,7 @@ class ExprMixin:
             has = self.rd(st, self.eng.k_dhas(t.k, t.v), obj.z)
             self.raise_if(st, z3.Not(z3.Select(has, k.z)), 'KeyError', 'dict lookup')
             z = z3.Select(self.rd(st, self.eng.k_dval(t.k, t.v), obj.z), k.z)
-            return self.loaded(SV(t.v, z), st)
+            return self.loaded(SV(t.v, z), st, guard=z3.Select(has, k.z))
         if isinstance(t, T.Map):
             k = coerce(idx, t.k)
             return SV(t.v, z3.Select(t.dt.val(obj.z), k.z))
@@ -845,12 +850,22 @@ class ExprMixin:
             ln = seq_len(s)
             self.raise_if(st, z3.Or(idx.z >= ln, idx.z < -ln), 'IndexError', 'list index')
             j = self.norm_index(idx.z, ln)
-            return self.loaded(SV(s.t.elem, z3.Select(seq_arr(s), j)), st)
+            return self.loaded(SV(s.t.elem, z3.Select(seq_arr(s), j)), st, guard=z3.And(0 <= j, j < ln))
         raise Unsupported('subscript on %s (line %s)' % (t, getattr(n, 'lineno', '?')))
 
-    def loaded(self, v, st):
-        """A reference read out of an allocated container is itself allocated (heap closure)."""
+    def loaded(self, v, st, guard=None):
+        """A reference read out of an allocated container is itself allocated (heap closure).  In specifications the read may be
+        out of range / of an absent key (protected by an enclosing implication): the facts are then conditional on `guard`."""
         if v.t.reflike and (not self.spec or not self.involves_bound([v.z])):
+            if guard is not None and self.spec:
+                st.assume(z3.Implies(guard, z3.And(v.z <= st.h(('alloc',)), v.z >= 0)))
+                if not v.t.nullable:
+                    st.assume(z3.Implies(guard, v.z > 0))
+                if isinstance(v.t, T.Ref) and v.t.cls != '$any' and v.t.cls in self.eng.prop.classes:
+                    st.assume(z3.Implies(z3.And(guard, v.z != 0), self.eng.instance_of(v.z, v.t.cls)))
+                elif isinstance(v.t, (T.List, T.Dict)):
+                    st.assume(z3.Implies(z3.And(guard, v.z != 0), self.eng.cls_of(v.z) == 0))
+                return v
             st.assume(v.z <= st.h(('alloc',)))
             st.assume(v.z >= 0)
             if not v.t.nullable:
@@ -866,6 +881,22 @@ class ExprMixin:
         elif isinstance(t, (T.List, T.Dict)):
             # a value of a builtin container type is an instance of no declared class (class id 0)
             st.assume(z3.Implies(v.z != 0, self.eng.cls_of(v.z) == 0))
+            if isinstance(t, T.List) and isinstance(t.elem, (T.List, T.Dict)) and not self.involves_bound([v.z]):
+                # heap typing: the elements of a list of (non-optional) builtin containers are containers
+                arr = st.h(self.eng.k_elem(t.elem))
+                ln = st.h(self.eng.k_len())
+                key = ('$elemtyping', arr.get_id(), ln.get_id(), v.z.get_id(), t.elem.key)
+                if key not in st.axd:
+                    k = z3.Int(fresh_name('k'))
+                    e = z3.Select(z3.Select(arr, v.z), k)
+                    concl = [self.eng.cls_of(e) == 0] if t.elem.nullable else [e > 0, self.eng.cls_of(e) == 0]
+                    guard = [v.z != 0, 0 <= k, k < z3.Select(ln, v.z)] + ([e != 0] if t.elem.nullable else [])
+                    body = z3.Implies(z3.And(*guard), z3.And(*concl))
+                    try:
+                        ax = z3.ForAll([k], body, patterns=[e])
+                    except z3.Z3Exception:
+                        ax = z3.ForAll([k], body)
+                    st.add_axiom(key, ax)
             if isinstance(t, T.List) and isinstance(t.elem, T.Ref) and t.elem.cls != '$any' and t.elem.cls in self.eng.prop.classes \
                     and not getattr(self.eng.prop.classes[t.elem.cls], 'universal', False) and not self.involves_bound([v.z]):
                 # heap typing: the elements of a list[C] are instances of C (or None where the element type is nullable)
@@ -1023,7 +1054,50 @@ class ExprMixin:
         return self.filter_seq(n, g, s, st)
 
     def filter_seq(self, n, g, s, st):
-        raise Unsupported('filtering comprehension')
+        """[elt for x in xs if cond]: a fresh sequence R with a strictly increasing index map f into xs and its inverse g:
+        R[k] == elt(xs[f(k)]), cond(xs[f(k)]); every xs[i] with cond(xs[i]) is some R[g(i)]."""
+        if self.spec:
+            raise Unsupported('filtering comprehension in a specification')
+        ln = seq_len(s)
+        src_arr = seq_arr(s)
+        nres = z3.Int(fresh_name('fn'))
+        f = z3.Function(fresh_name('fidx'), z3.IntSort(), z3.IntSort())
+        gi = z3.Function(fresh_name('finv'), z3.IntSort(), z3.IntSort())
+        k, a, b, i = (z3.Int(fresh_name(x)) for x in 'kabi')
+
+        def at(idx):
+            ev = SV(s.t.elem, z3.Select(src_arr, idx))
+            self.bound.append(self.bind_target(g.target, ev))
+            was = self.spec
+            self.spec = True
+            try:
+                cond = zand([self.truthy(self.ev(c, st), st) for c in g.ifs])
+                e = self.ev(n.elt, st)
+            finally:
+                self.spec = was
+                self.bound.pop()
+            return cond, e
+        ck, ek = at(f(k))
+        ci, _ = at(i)
+        res_arr = z3.Const(fresh_name('filt'), z3.ArraySort(z3.IntSort(), ek.t.sort() if not ek.t.reflike else z3.IntSort()))
+        st.assume(z3.And(0 <= nres, nres <= ln))
+        st.assume(z3.ForAll([k], z3.Implies(z3.And(0 <= k, k < nres),
+                                            z3.And(0 <= f(k), f(k) < ln, z3.Select(res_arr, k) == ek.z, ck, gi(f(k)) == k)),
+                            patterns=[z3.Select(res_arr, k)]))
+        st.assume(z3.ForAll([a, b], z3.Implies(z3.And(0 <= a, a < b, b < nres), f(a) < f(b)), patterns=[z3.MultiPattern(f(a), f(b))]))
+        st.assume(z3.ForAll([i], z3.Implies(z3.And(0 <= i, i < ln, ci), z3.And(0 <= gi(i), gi(i) < nres, f(gi(i)) == i)),
+                            patterns=[z3.Select(src_arr, i)]))
+        # consequences of the three axioms above, stated for the solver's benefit: the elements between two consecutive kept
+        # ones, before the first and after the last kept one fail the condition
+        m = z3.Int(fresh_name('m'))
+        cm, _ = at(m)
+        st.assume(z3.ForAll([k, m], z3.Implies(z3.And(0 <= k, k + 1 < nres, f(k) < m, m < f(k + 1)), z3.Not(cm)),
+                            patterns=[z3.MultiPattern(f(k), z3.Select(src_arr, m))]))
+        st.assume(z3.ForAll([m], z3.Implies(z3.And(0 <= m, m < ln, z3.Or(nres == 0, m < f(0), m > f(nres - 1))), z3.Not(cm)),
+                            patterns=[z3.Select(src_arr, m)]))
+        st.assume(z3.Implies(nres > 0, z3.And(0 <= f(0), f(nres - 1) < ln)))
+        r = mk_seq(ek.t, nres, res_arr)
+        return self.new_list_from_seq(r, st)
 
     def bind_target(self, target, v):
         if isinstance(target, ast.Name):
